@@ -26,6 +26,12 @@
 (* the suboptimality Obj(loose) - Obj(fit), Obj(fit) being certified       *)
 (* optimal by the kkt clauses), nb (the loose point is not better than     *)
 (* the certified optimum).                                                 *)
+(* OLS with intercept: clause coef (the slopes equal the exact rational     *)
+(* least-squares slopes of the integer problem within the accuracy of a    *)
+(* backward-stable solver); cases may carry per-column offsets "off" (the  *)
+(* estimator sees x + off): then predict/perturb are replaced by the       *)
+(* shift-invariant clauses kkt (x_j'r), icpt (sum r) and coef, all on the  *)
+(* un-shifted integers with residuals from the logged predictions.         *)
 (* Units: a case may carry a unit exponent ue; the estimator then sees the *)
 (* targets y * 2^ue (and the l1 weight * 2^ue: the same problem in another *)
 (* unit).  The harness logs in the unit of the case, so every clause is    *)
@@ -88,7 +94,7 @@ CMof(rm)   == [jj \in 1..P |-> [tt \in 1..T |-> ColDot(X, rm, jj, tt)]]
 CM(ev)     == CMof(R(ev))
 
 RangeOkA(ev) ==
-  /\ \A jj \in 1..P : \A tt \in 1..T : Abs(ev.w[jj][tt]) <= WMAX
+  /\ \A jj \in 1..P : \A tt \in 1..T : Abs(ev.w[jj][tt]) <= (IF Kind = "ols" THEN 2 * WMAX ELSE WMAX)
   /\ \A tt \in 1..T : Abs(ev.b[tt]) <= BMAX
   /\ \A i \in 1..N : \A tt \in 1..T : Abs(ev.yhat[i][tt]) <= BMAX /\ Abs(Y[i][tt] * S - ev.yhat[i][tt]) <= RMAX
   /\ ev.gap >= -GCAP
@@ -151,15 +157,34 @@ PerturbOk(ev, rm, cm) ==
 
 Premise == Kind /= "ols" \/ FullRank(X, In.icpt)
 
+\* OLS with an intercept: per-column offsets of the records (the estimator sees x + off, the specification the
+\* un-shifted integers; see LinRegRel) and comparison with the exact least-squares slopes
+Off     == In.off
+OffCase == \E k \in 1..P : Off[k] /= 0
+OlsIcpt == Kind = "ols" /\ In.icpt
+OffOrthOk(ev, rm, cm) ==
+  \A jj \in 1..P :
+     Abs(cm[jj][1]) <= (ColAbs(X, jj) + 1) \div 2 + 1 + A64 + OffAlK(X, Y, Off, ev.w, ev.yhat, rm, jj, 1, F32)
+OffIcptOk(ev, rm) ==
+  Abs(ResSum(rm, 1)) <= (N + 1) \div 2 + 1 + A64 + OffAl0(X, Off, ev.w, 1, F32)
+
 FitFirstFalse(ev) ==
-  IF ~(ev.res = "ok" /\ ev.sane) THEN "res"
+  IF ~Premise THEN "none"                 \* rank-deficient OLS: outside the quantifier, nothing is demanded
+  ELSE IF ~(ev.res = "ok" /\ ev.sane) THEN "res"
   ELSE IF ~ShapeOk(ev) THEN "shape"
-  ELSE IF ~Premise THEN "none"            \* rank-deficient OLS: outside the quantifier, nothing is demanded
   ELSE IF ~RangeOkA(ev) THEN "range"
   ELSE LET rm == R(ev)
            cm == CMof(rm)
        IN
        IF ~RangeOkB(cm) THEN "range"
+       ELSE IF OlsIcpt /\ ~SolveInRange(X, Y, Off, ev.w, ev.yhat, rm, 1, F32) THEN "offrange"
+       ELSE IF OlsIcpt /\ OffCase /\ ~Resolvable(X, Y, Off, ev.w, ev.yhat, rm, 1, F32) THEN "none"
+       ELSE IF OffCase THEN       \* shifted records (OLS with intercept only): shift-invariant clauses
+            (IF ~OlsIcpt THEN "offkind"
+             ELSE IF ~OffOrthOk(ev, rm, cm) THEN "kkt"
+             ELSE IF ~OffIcptOk(ev, rm) THEN "icpt"
+             ELSE IF ~CoefOk(X, Y, Off, ev.w, ev.yhat, rm, 1, F32) THEN "coef"
+             ELSE "none")
        ELSE IF ~PredictOk(X, ev.w, ev.b, ev.yhat, AlP(ev)) THEN "predict"
        ELSE IF ~B0Ok(ev) THEN "b0"
        ELSE IF ~KktOk(ev, cm) THEN "kkt"
@@ -168,6 +193,8 @@ FitFirstFalse(ev) ==
        ELSE IF ~GapOk(ev) THEN "gap"
        ELSE IF ~StopOk(ev, In.te) THEN "stop"
        ELSE IF ~PerturbOk(ev, rm, cm) THEN "perturb"
+       ELSE IF OlsIcpt /\ Resolvable(X, Y, Off, ev.w, ev.yhat, rm, 1, F32)
+                    /\ ~CoefOk(X, Y, Off, ev.w, ev.yhat, rm, 1, F32) THEN "coef"
        ELSE "none"
 
 -----------------------------------------------------------------------------
@@ -267,7 +294,7 @@ TLoose0 ==
   /\ Loose0FirstFalse(Case.ev[e]) = "none"
   /\ Adv
 
-DevUsed == Fit1.res = "ok" /\ Fit1.sane /\ ShapeOk(Fit1) /\ Premise /\ RangeOk(Fit1) /\ ~IcptStrict(Fit1)
+DevUsed == Premise /\ Fit1.res = "ok" /\ Fit1.sane /\ ShapeOk(Fit1) /\ RangeOk(Fit1) /\ ~IcptStrict(Fit1)
 
 Accept ==
   /\ e = Len(Case.ev) + 1
